@@ -101,6 +101,10 @@ def fault_cases(tier):
         for via in ('node_template', 'node_values'):
             for vec in (False, True):
                 out.append({'kind': 'fault', 'fault': 'override_typo', 'pos': pos, 'via': via, 'vectorize': vec})
+    # several node_values entries of which one addresses a node that does not exist, at every position
+    for pos in (0, 1, 2):
+        for hier in (False, True):
+            out.append({'kind': 'fault', 'fault': 'node_values_several', 'pos': pos, 'hier': hier})
     for where in ('other_node', 'same_node', 'other_node_declared_first'):
         out.append({'kind': 'fault', 'fault': 'foreign_variable', 'where': where})
     out.append({'kind': 'fault', 'fault': 'two_outputs'})
@@ -270,6 +274,16 @@ def run_fault(case, res):
                 if case['via'] == 'node_values':
                     rk['node_values'] = {f"n{case['pos']}/so/kk": 5.0}
                 result = c.run(**rk)
+            elif f == 'node_values_several':
+                hier = case['hier']
+                good = ['c1/a/so/k', 'c1/a/so/x'] if hier else ['a/so/k', 'a/so/x']
+                bad = 'c1/zz/so/k' if hier else 'zz/so/k'
+                entries = [(good[0], 5.0), (good[1], 0.4)]
+                entries.insert(case['pos'], (bad, 7.0))
+                rk = dict(run_kw)
+                if hier:
+                    rk['outputs'] = {'v': 'c2/b/to/v'}
+                result = mk(hier=hier).run(node_values=dict(entries), **rk)
             elif f == 'foreign_variable':
                 so = OperatorTemplate('so', equations=["d/dt * x = -k*x"], variables={'x': 'output(0.6)', 'k': 1.5})
                 to = OperatorTemplate('to', equations=["d/dt * v = -k*v + u"], variables={'v': 'output(0.1)', 'u': 'input(0.0)'})
